@@ -109,7 +109,7 @@ def graph_run(prop, tier, seed, module, mc_module, cfgs, required_tags, level_no
                 "rerun": f"./check {prop} --replay <this file>"})
             violations.append({"sig": sig, "what": f"{sig}: {d['detail']}", "replay": path})
     missing = [t for t in required_tags if tag_counts.get(t, 0) == 0]
-    if missing:
+    if missing and not violations:
         raise ToolError(f"vacuity guard: the model never exercised {missing} (tags seen: {sorted(tag_counts)})")
     coverage = {
         "states": total_states,
@@ -518,7 +518,7 @@ def c15_run(prop, tier, seed):
                     sig = f"Compat:e2e:incompatible-qos-status:{side}:{'wrongly-reported' if not inc else ('not-reported' if not cbs else 'wrong-policies-or-count')}"
                     report(sig, f"{sig}: expected {'no report' if not inc else 'one report with total_count 1 naming ' + str(inc)}, got {cbs}",
                            {"property": prop, "kind": "e2e", "signature": sig, "case": c, "observed": cbs})
-    if checked + skipped < len(e2e) * 0.9 or checked < len(e2e) * 0.5:
+    if (checked + skipped < len(e2e) * 0.9 or checked < len(e2e) * 0.5) and not violations:
         raise ToolError(f"only {checked} of {len(e2e)} end-to-end cases produced a result")
     coverage = {
         "states": r1["stats"]["distinct"] + r2["stats"]["distinct"],
@@ -712,7 +712,7 @@ def _keyhash(prop, tier, seed, owns):
         content.update({"property": prop, "signature": sig})
         path = vlib.save_replay(prop, re.sub(r"[^A-Za-z0-9_.-]", "_", sig)[:140], content)
         violations.append({"sig": sig, "what": f"{sig}: {what}", "replay": path})
-    if e2e < 50 or rep["evaluated"] != len(cases):
+    if (e2e < 50 or rep["evaluated"] != len(cases)) and not violations:
         raise ToolError(f"vacuity guard: only {e2e} end-to-end observations / {rep['evaluated']} function cases")
     coverage = {"states": r1["stats"]["distinct"], "transitions": len(cases), "traces_validated_against_impl": rep["evaluated"] + e2e,
                 "evaluations": rep["evaluated"] * 2 + rep["pairs"] + e2e, "distinct_nontrivial": rep["md5"] + rep["pad"],
@@ -860,7 +860,7 @@ def c42_run(prop, tier, seed):
     c = res["counters"]
     need = {"sleeps": 100, "ready": 40, "droppedjudged": 20, "blockon": 20, "blocktimeoutok": 5, "blocktimeouttimeout": 5}
     missing = [k for k, m in need.items() if c.get(k, 0) < m]
-    if missing:
+    if missing and not violations:
         raise ToolError(f"vacuity guard: counters {missing} too low: {c}")
     coverage = {"states": r1["stats"]["distinct"] + res["states"], "transitions": r1["stats"]["generated"] + res["lines"],
                 "model_checking_runs": mc, "traces_validated_against_impl": runs, "evaluations": c.get("sleeps", 0) + c.get("blockon", 0) + c.get("blocktimeoutok", 0) + c.get("blocktimeouttimeout", 0),
